@@ -113,6 +113,12 @@ def mpo_arith(ctx, idx, rng):
     B = gen.rand_mpo(rng, qd, L, Dmax=3, kind=k1, boundary=(int(A.qD[0][0]), int(A.qD[-1][0])))
     # B's trailing charge must be reachable: re-mask (rand_mpo masks with its own qD, so B is consistent by construction)
     C = gen.rand_mpo(rng, qd, L, Dmax=2, kind='complex')
+    if idx % 5 == 3 and d >= 2 and layout == 'zero':
+        # operands assembled from structured blocks (zero blocks, identities, c*I + g*X, projectors, shifts) as in hand-written automaton-form operators
+        A = gen.structured_block_mpo(rng, d, L, Dmax=3, cplx=True)
+        B = gen.structured_block_mpo(rng, d, L, Dmax=3, cplx=bool(rng.random() < 0.5))
+        C = gen.structured_block_mpo(rng, d, L, Dmax=2, cplx=True)
+        k0 = k1 = 'structured-blocks'
     same = idx % 7 == 6
     if same:
         B = A                      # the SAME object on both sides (A - A, A + A, A @ A)
@@ -191,6 +197,9 @@ def apply_case(ctx, idx, rng):
         qd = H.qd
     else:
         H = gen.rand_mpo(rng, qd, L, Dmax=3, kind=str(rng.choice(['complex', 'real'])))
+        if not np.any(qd) and len(qd) >= 2 and idx % 3 == 1:
+            H = gen.structured_block_mpo(rng, len(qd), L, Dmax=3, cplx=True)
+            src = src + '+structured-blocks'
     mH = refs.dense_operator(H.A)
     va, vb = refs.dense_state(a.A), refs.dense_state(b.A)
     ctx.case(('apply', f'L{L}', f'd{d}', layout, src) + lab[:2], sample={'qd': qd, 'qDH': H.qD, 'qDpsi': a.qD})
